@@ -35,15 +35,23 @@ def _adapter(item):
 
 
 def _params_snapshot(est, ad):
+    """the objects the user handed to the constructor (dictionaries, arrays, lists)"""
     try:
         p = est.get_params(deep=False)
-    except Exception:
+    except Exception:      # several estimators do not store every constructor argument under its own name
         p = {}
-    return snap({k: v for k, v in p.items() if isinstance(v, (dict, list, set, np.ndarray)) or hasattr(v, "shape")})
+    objs = {k: v for k, v in p.items() if isinstance(v, (dict, list, set, np.ndarray)) or hasattr(v, "shape")}
+    objs.update(getattr(ad, "param_objects", {}) or {})
+    return snap(objs)
 
 
 def _model_snapshot(est):
     return snap({k: v for k, v in vars(est).items()})
+
+
+def _fitted_only(s, keys):
+    """restrict a model snapshot to the given attribute names"""
+    return ("dict", tuple((k, v) for k, v in s[1] if k in keys))
 
 
 def run_history(item):
@@ -54,24 +62,27 @@ def run_history(item):
     model_c = SnapClasses(1e-9, 1e-9)
     est = None
     steps = []
+    common, model_snaps = [None], []
     for c in item["history"]:
         op = c["op"]
         o = dict(rows=[], width=-1, ret_self=True, args_ok=True, params_ok=True, model_ok=True, tmp_ok=True, raised=False, model=0)
         if op == "knob":
             ks = ad.knobs
             if est is not None and ks:
-                est.set_params(**ks[(c["knob"] - 1) % len(ks)])
+                for kk, vv in ks[(c["knob"] - 1) % len(ks)].items():
+                    setattr(est, kk, vv)
             steps.append({"c": c, "o": o})
             continue
-        if op in ("fit", "fit_transform", "refit") or est is None:
-            if op != "transform":
-                est = ad.make()
         fitting = op in ("fit", "fit_transform", "refit")
         try:
             X, kw = ad.batch(c["b"], fitting=fitting)
         except TypeError:
             X, kw = ad.batch(c["b"])
-        before_args = snap((X, kw)) if not item.get("no_arg_snapshot") else None
+        if fitting:
+            est = ad.make()
+        elif est is not None and hasattr(ad, "_n") and hasattr(est, "generator_n_distributions"):
+            est.generator_n_distributions = ad._n
+        before_args = snap((X, kw)) if not (item.get("no_arg_snapshot") or getattr(ad, "no_arg_snapshot", False)) else None
         before_par = _params_snapshot(est, ad)
         before_model = _model_snapshot(est) if op == "transform" else None
         before_tmp = sorted(os.listdir(d))
@@ -95,7 +106,13 @@ def run_history(item):
         o["tmp_ok"] = sorted(os.listdir(d)) == before_tmp
         if not o["raised"]:
             if op in ("fit", "refit", "fit_transform") and item.get("record_model", True):
-                o["model"] = model_c.cid(_model_snapshot(est))
+                ms = _model_snapshot(est)
+                # attributes that only exist after a transform (by-products such as mix_weights_) are not part of the
+                # fitted model: compare on the attributes every recorded model of this history has
+                keys = set(k for k, _ in ms[1])
+                common[0] = keys if common[0] is None else (common[0] & keys)
+                model_snaps.append(ms)
+                o["model"] = len(model_snaps)
             if out is not None:
                 try:
                     rs = ad.rows(out, len(c["b"]))
@@ -109,4 +126,10 @@ def run_history(item):
                     o["raised"] = True
                     o["exc"] = "rows: " + type(e).__name__ + ": " + str(e)[:200]
         steps.append({"c": c, "o": o})
+    # model classes on the common attributes
+    reps = []
+    for st in steps:
+        m = st["o"].get("model", 0)
+        if m:
+            st["o"]["model"] = model_c.cid(_fitted_only(model_snaps[m - 1], common[0]))
     return {"steps": steps}
